@@ -26,6 +26,8 @@ pub struct ExpCase {
     pub sched: SchedSpec,
     pub log: bool,
     pub io: IoPlan,
+    #[serde(default)]
+    pub stale_folder: bool,
 }
 
 #[derive(Clone, Debug, PartialEq, Default)]
@@ -129,11 +131,14 @@ impl World for Experiment {
         };
         let problems = (0..n_prob)
             .map(|i| {
+                // every problem has its own domain (the template's parameters stay valid for any
+                // domain; only the first problem keeps the one they were drawn relative to)
                 let mut p = gen_real(&mut g, false, 4);
-                // parameters such as v_max or deviations were drawn relative to the template's domain
-                if let ProblemSpec::Real(r) = &template.problem {
-                    p.lo = r.lo;
-                    p.hi = r.hi;
+                if i == 0 {
+                    if let ProblemSpec::Real(r) = &template.problem {
+                        p.lo = r.lo;
+                        p.hi = r.hi;
+                    }
                 }
                 p.dim = dim.max(1);
                 // names with dots and dashes are legal file-name stems
@@ -163,7 +168,8 @@ impl World for Experiment {
                 }
             }
         }
-        ExpCase { template, problems, runs: 1 + g.below(6) as u64, sched, log: self.prop == "C15" || g.chance(0.7), io }
+        let stale_folder = fg.chance(0.3);
+        ExpCase { template, problems, runs: 1 + g.below(6) as u64, sched, log: self.prop == "C15" || g.chance(0.7), io, stale_folder }
     }
 
     fn execute(&self, c: &ExpCase) -> Outcome<ExpCase> {
@@ -184,6 +190,12 @@ impl World for Experiment {
             for run in 0..c.runs {
                 let problem = RealP::new(spec.clone());
                 let setup = setup_fn(ref_map.clone(), c.log);
+                // a configuration object of its own: the reference must not depend on what an
+                // earlier run left in a (supposedly immutable) component
+                let config = match build(&c.template) {
+                    Ok(cfg) => cfg,
+                    Err(_) => return out,
+                };
                 let r = guarded(|| {
                     config.optimize_with(&problem, |state| {
                         state.insert(Random::new(run));
@@ -222,6 +234,15 @@ impl World for Experiment {
         let case = c.clone();
         let folder = scratch_dir().join("experiment");
         let _ = std::fs::remove_dir_all(&folder);
+        if c.stale_folder {
+            // the folder was used by an earlier experiment: its files are still there
+            let _ = std::fs::create_dir_all(&folder);
+            let _ = std::fs::write(folder.join("configuration.ron"), vec![b'#'; 5000]);
+            for spec in &c.problems {
+                let _ = std::fs::write(folder.join(format!("{}_0.cbor", spec.name)), vec![b'#'; 9000]);
+            }
+            bump(&mut out.counters, "fault:data folder holding the files of an earlier experiment", 1);
+        }
         let folder2 = folder.clone();
         let pr = run_in_shuttle(c.sched, move || {
             let config = build(&case.template).expect("built before");
